@@ -1,0 +1,67 @@
+//! Verification hooks.
+//!
+//! This module only exists when the crate is compiled with `--cfg anytls_verif`
+//! (never in a normal build). It lets an external harness
+//!   * park a task at a named scheduling point (`point`) and release it later,
+//!   * observe internal events (`emit`),
+//!   * force the random draw of a padding range (`draw`),
+//! without changing what the library does when no controller is installed.
+
+use std::collections::HashMap;
+use std::future::Future;
+use std::pin::Pin;
+use std::sync::{Arc, Mutex, RwLock};
+
+pub type BoxFut = Pin<Box<dyn Future<Output = ()> + Send>>;
+
+/// Installed by the harness; every method must be cheap and must not call back into the library.
+pub trait Controller: Send + Sync {
+    /// Called at a scheduling point. The returned future is awaited by the task that hit the point.
+    fn point(&self, task: Option<String>, name: &'static str) -> BoxFut;
+    /// Informational event from inside the library (json object text without the braces' context).
+    fn event(&self, task: Option<String>, kind: &'static str, fields: Vec<(&'static str, String)>);
+    /// Forced padding draw for the range `lo..=hi`; `None` = use the library's RNG.
+    fn draw(&self, lo: i64, hi: i64) -> Option<i64>;
+}
+
+static CONTROLLER: RwLock<Option<Arc<dyn Controller>>> = RwLock::new(None);
+static LABELS: Mutex<Option<HashMap<tokio::task::Id, String>>> = Mutex::new(None);
+
+pub fn install(c: Option<Arc<dyn Controller>>) {
+    *CONTROLLER.write().unwrap() = c;
+    *LABELS.lock().unwrap() = Some(HashMap::new());
+}
+
+fn controller() -> Option<Arc<dyn Controller>> {
+    CONTROLLER.read().unwrap().clone()
+}
+
+/// Give the current tokio task a label (used by the controller to decide whom to park).
+pub fn name_task(label: &str) {
+    if let Some(id) = tokio::task::try_id() {
+        let mut g = LABELS.lock().unwrap();
+        g.get_or_insert_with(HashMap::new).insert(id, label.to_string());
+    }
+}
+
+pub fn task_label() -> Option<String> {
+    let id = tokio::task::try_id()?;
+    let g = LABELS.lock().unwrap();
+    g.as_ref()?.get(&id).cloned()
+}
+
+pub async fn point(name: &'static str) {
+    if let Some(c) = controller() {
+        c.point(task_label(), name).await;
+    }
+}
+
+pub fn emit(kind: &'static str, fields: Vec<(&'static str, String)>) {
+    if let Some(c) = controller() {
+        c.event(task_label(), kind, fields);
+    }
+}
+
+pub fn draw(lo: i64, hi: i64) -> Option<i64> {
+    controller().and_then(|c| c.draw(lo, hi))
+}
